@@ -30,6 +30,7 @@ type Graph struct {
 	nodeAll   map[ast.Node][]nodeLoc
 	inl       *inlineInfo
 	deadEdges map[*cfg.Block][]bool
+	boolOver  map[string][]string
 }
 
 type nodeLoc struct {
